@@ -13,6 +13,8 @@ def jobs(tier):
              require_tags={'end': 1, 'accept': 1, 'counted-allele': 1}),
         dict(name='divmat-fixed-table', harness='c08_divmat.c', entry='main_c08', defines=dict(NN=4, NE=4, NS=1, NM=2, FIXED_TABLE=1), timeout=900,
              require_tags={'end': 1, 'accept': 1, 'mrca': 1, 'disconnected': 1, 'differ': 1}),
+        dict(name='afs-n3e2-two-samples', harness='c08_afs.c', entry='main_c08', defines=dict(NN=3, NE=2, NS=0, NM=0, TP_HI=0, SP_LO=0, SP_HI=0), timeout=900,
+             require_tags={'end': 1, 'accept': 1}),
         dict(name='paircoal-fixed-table', harness='c08_paircoal.c', entry='main_c08', defines=dict(NN=4, NE=4, NS=0, FIXED_TABLE=1), timeout=600,
              require_tags={'end': 1, 'accept': 1, 'coalesces': 1, 'at-a-sample': 1}),
         dict(name='paircoal-n3e2', harness='c08_paircoal.c', entry='main_c08', defines=dict(NN=3, NE=2, NS=0, TP_HI=0, SP_LO=1, SP_HI=2), timeout=900,
@@ -46,7 +48,7 @@ BOUNDS = {
              'with b a solver variable; every valid 3-node 2-edge tree sequence class (branch and node mode, 2 sample profiles), and the fixed 5-tree table '
              'with one site at a symbolic position and 2 mutations (alleles "A" or "C" over ancestral "AT"; all three modes).  tsk_treeseq_allele_frequency_spectrum: '
              'branch and site mode, polarised and folded, sample sets {all}, {all but the first}, {first}+{rest} (joint spectrum), windows [0,b,L]; '
-             'the same fixed table with its site and 2 mutations.  tsk_treeseq_divergence_matrix between single samples, branch and site mode, windows [0,L] and [0,b,L], same fixed table.  tsk_treeseq_pair_coalescence_counts per node, pairs within {all} / {all but the first} or between {first} and {rest}, '
+             'the same fixed table with its site and 2 mutations, and every 3-node 2-edge class with two samples (joint spectrum of two singletons: the folding tie-break).  tsk_treeseq_divergence_matrix between single samples, branch and site mode, windows [0,L] and [0,b,L], same fixed table.  tsk_treeseq_pair_coalescence_counts per node, pairs within {all} / {all but the first} or between {first} and {rest}, '
              'no normalisation, windows [0,L] and [0,b,L] (all coordinates even integers), fixed table and every 3-node 2-edge class with 2 sample profiles',
     'thorough': 'plus AFS and divergence matrix (branch mode) on every 3-node 2-edge class with 2 sample profiles (incl. an internal sample), divergence matrix and pair coalescence counts on 4-node 3-edge classes, AFS site mode on all 3-node classes, AFS branch mode on 4-node 3-edge classes, general_stat site mode on all 3-node classes and branch/node mode on 4-node 3-edge classes (time-boxed)',
 }
